@@ -58,6 +58,9 @@ def run(ctx):
     # balanced reaction (ions the rule database holds and ions it does not); such a row is balanced only if something complete is added
     rng = random.Random("c01|%s|%s" % (ctx.seed, ctx.tier))
     BASE = ["CC(=O)O.[OH-]>>CC(=O)[O-].O", "CCBr.[OH-]>>CCO.[Br-]", "CC(=O)OCC.O>>CC(=O)O.CCO", "c1ccccc1>>c1ccccc1", "CCO.CC(=O)Cl>>CC(=O)OCC.Cl"]
+    # look-alike element symbols (one letter apart, very different elements): never balanced against each other
+    LOOK = [("Np", "Nb"), ("Pa", "Pd"), ("Pu", "Pt"), ("Ac", "Ag"), ("Am", "Al"), ("Cm", "Cd"), ("Es", "Cs"), ("Ra", "Rb"), ("Fr", "Fe"), ("Th", "Tl"), ("Bk", "Br"),
+            ("Cf", "Cd"), ("Md", "Mo"), ("Lr", "Li"), ("Rf", "Rh"), ("Db", "Pb"), ("Sg", "Sn"), ("Bh", "Bi"), ("Hs", "Hf"), ("Mt", "Mn"), ("No", "Nb"), ("Fm", "Fe")]
     SPEC = ["[Cs+]", "[Ag+]", "[Rb+]", "[Pd+2]", "[Na+]", "[K+]", "[Li+]", "[Cl-]", "[Br-]", "[NH4+]", "[Cu+2]", "O", "ClCCl", "[Zn+2]", "[F-]", "[Ba+2]"]
     spect = []
     for base in BASE:
@@ -67,7 +70,12 @@ def run(ctx):
                 ls, ps = l.split(".") + [x] * nl, p.split(".") + [x] * nr
                 rng.shuffle(ls); rng.shuffle(ps)
                 spect.append(".".join(ls) + ">>" + ".".join(ps))
-    sb, _ = pipe.cached("c01spect_%s_%d" % (ctx.tier, ctx.seed), lambda: pipe.run_batches([spect[i:i + 25] for i in range(0, len(spect), 25)]))
+    look = []
+    for a, b2 in LOOK:
+        look += [x for x in ("[%s]>>[%s]" % (a, b2), "O=[%s]=O.CC(=O)Cl.O>>O=[%s]=O.CC(=O)O" % (a, b2), "Cl[%s]Cl>>Cl[%s]Cl" % (b2, a),
+                             "O=[%s+]=O.[Cl-]>>O=[%s+]=O.[Cl-]" % (a, b2)) if pipe.balanced(x) is not None]     # parsable ones only
+    sb, _ = pipe.cached("c01spect_%s_%d" % (ctx.tier, ctx.seed), lambda: pipe.run_batches([spect[i:i + 25] for i in range(0, len(spect), 25)] + [look[i:i + 6] for i in range(0, len(look), 6)]))
+    ctx.count("inputs", "look_alike_element_rows", len(look))
     ctx.count("inputs", "spectator_multiplicity_rows", len(spect))
     for b in sb:
         oracle(ctx, b)
